@@ -413,6 +413,18 @@ impl Format {
 
         let epoch = match day_of_year {
             Some(days) => {
+                // The day of year is one-based and within the year: 365 days, 366 in leap years.
+                let days_in_year = if crate::epoch::is_leap_year(decomposed[0]) {
+                    366.0
+                } else {
+                    365.0
+                };
+                if !(1.0..days_in_year + 1.0).contains(&days) {
+                    return Err(HifitimeError::Parse {
+                        source: ParsingError::ValueError,
+                        details: "invalid day of year",
+                    });
+                }
                 // Parse the elapsed time in the given day
                 let elapsed = (decomposed[3] as i64) * Unit::Hour
                     + (decomposed[4] as i64) * Unit::Minute
